@@ -99,7 +99,7 @@ COMBOS = [[], ["html_image"], ["html_admonition"], ["html_image", "html_admoniti
 ELEMS = [
     "<div>x</div>", '<span class="admonition">y</span>', "a <b>c</b> d", "<!-- c -->", '<div class="admonition">\n<p>t</p>', '<div class="x">',
     "<?php x ?>", "<p>x</p>", "<table><tr><td>*a*</td></tr></table>", '<div class="admonition"', "<img", "text before <i>x</i>", "<b>bold</b> text after",
-    '<video src="a.png"></video>', "<IMG2 src=a>", "<div class='admonitions'>\n<p>q</p>\n</div>", "&amp; <br> &#38;",
+    '<video src="a.png"></video>', "<IMG2 src=a>", "x <style> y", "x <script>alert(1) y", "x <textarea y", "x <b", "<div class='admonitions'>\n<p>q</p>\n</div>", "&amp; <br> &#38;",
 ]
 CONV = ['<img src="a.png">', '<img src="a.png" alt="A">', '<div class="admonition note">\n<p class="title">T</p>\n<p>body</p>\n</div>']
 
@@ -137,6 +137,7 @@ class PassSystem(System):
         text = CTXS[cname]("\n".join(pool[i] for i in idx) + "\n")
         viol = []
         outs = {}
+        d_by = {}
         for exts in COMBOS:
             cfg = MdParserConfig(enable_extensions=exts)
             toks = html_tokens(text, cfg)
@@ -144,6 +145,7 @@ class PassSystem(System):
             raws = [r.astext() for r in d.findall(nodes.raw)]
             fmts = {r.get("format") for r in d.findall(nodes.raw)}
             outs[tuple(exts)] = (toks, raws)
+            d_by[tuple(exts)] = d
             if not exts:
                 if toks != raws or (raws and fmts != {"html"}):
                     viol.append(violation("passthrough", {"clause": "passthrough", "exts": "none"},
@@ -158,6 +160,20 @@ class PassSystem(System):
             keep = [t for t in toks if not _convertible(t, exts)]
             conv = [t for t in toks if _convertible(t, exts)]
             # raw nodes produced INSIDE a converted element (inner HTML of an admonition body) are that element's business
+            # convertible tokens must BE converted: count the image / admonition nodes they announce
+            n_img = n_adm = 0
+            for t in conv:
+                tp = _Top()
+                tp.feed(t)
+                tp.close()
+                n_img += sum(1 for x, _ in tp.top if x == "img")
+                n_adm += sum(1 for x, _ in tp.top if x == "div")
+            got_img = len(list(d_by[exts].findall(nodes.image)))
+            got_adm = len(list(d_by[exts].findall(nodes.admonition)))
+            if got_img < n_img or got_adm < n_adm:
+                viol.append(violation("conversion", {"clause": "conversion", "exts": "+".join(exts)},
+                                      f"with {list(exts)}: {n_img} <img> / {n_adm} div.admonition tokens are convertible but only {got_img} image / {got_adm} admonition nodes were produced",
+                                      text=text))
             outer = [r for r in raws if r in keep]
             if outer != keep or (not conv and raws != keep):
                 viol.append(violation("passthrough", {"clause": "passthrough", "exts": "+".join(exts)},
